@@ -169,5 +169,11 @@ class SpooledTextFile(_io.TextIOBase):
         file = self._file
         self._path = self._get_unused_path()
         newfile = self._file = self._path.open(mode='x+')
-        newfile.write(file.getvalue())
-        newfile.seek(file.tell(), 0)
+        contents = file.getvalue()
+        position = file.tell()
+        # A position in the mem buff counts characters, a position in a text file does not
+        # (characters may be encoded by more than one byte).
+        newfile.write(contents[:position])
+        position_in_newfile = newfile.tell()
+        newfile.write(contents[position:])
+        newfile.seek(position_in_newfile, 0)
